@@ -107,7 +107,7 @@ let run (hist : string) (impl : string) =
              if ks'.ka_excl && not !excluded then begin excluded := true; incr nexcl end;
              if !excluded then begin ks := ks'; s := s' end else begin
              (* the executable side conditions of the theorems (C17, C28): steps that fail them are outside the theorems *)
-             if not (adv_ok hst.ccfg !s ev && cl_fresh !s ev) then incr nside;
+             if not (adv_ok hst.ccfg !s ev && cl_fresh !s ev && ka_user_ok !ks ev && ka_clock_ok hst.ccfg !ks ev) then incr nside;
              let mouts = canon is_adv (List.map (fun o -> let (t, x) = Cl_io.out_text o in { t; text = x }) outs) in
              let iouts = canon is_adv (if k < Array.length ievs then snd ievs.(k) else []) in
              if k >= Array.length ievs then mismatch "MISSING-EVENT" k ("event not executed by the implementation: " ^ text);
